@@ -181,7 +181,7 @@ def execute(run, props):
     res = RunResult()
     cfg = run["config"]
     subject = cfg["subject"]
-    shared = set()      # ids of Field objects the caller put into both holders
+    shared = {}         # id -> Field object the caller put into both holders (kept alive, so that ids are not recycled)
     holders = [None, None]   # real objects
     models = [None, None]
 
@@ -422,7 +422,7 @@ def execute(run, props):
             f = models[0].d[ks[hash_free_index(op.get("k", ""), len(ks))]]
             holders[1].set_field(f)
             models[1].d[f.key] = f
-            shared.add(id(f))
+            shared[id(f)] = f
             res.sim_steps += 1
             res.nops += 1
             res.nontrivial = True
